@@ -576,6 +576,44 @@ def run(ctx):
                            "iso = c05.mk_point()\n" + ''.join(f"_ = {o!r}\n" for o in []) +
                            f"# history: {list(h)!r} (see mc/checks/c05.py ops)\n"
                            "raise AssertionError('replay through ./vcheck C05')\n")))
+    # ---- user subclasses that add nothing to the content (a convenience method): same identity rules as the plain classes
+    def subclasses():
+        import pygaps as pg
+        from pygaps.core.baseisotherm import BaseIsotherm as BI
+
+        class LabPoint(pg.PointIsotherm):
+            def label(self):
+                return f'{self.material} / {self.adsorbate}'
+
+        class LabModel(pg.ModelIsotherm):
+            def label(self):
+                return f'{self.material} / {self.adsorbate}'
+
+        class LabBase(BI):
+            pass
+        return LabPoint, LabModel, LabBase
+    LabPoint, LabModel, LabBase = subclasses()
+    plain_p, plain_m, plain_b = mk_point(), mk_model(), mk_base()
+    sub_p = LabPoint(isotherm_data=point_df(), pressure_key='pressure', loading_key='loading', **kw())
+    sub_m = LabModel(model=plain_m.model, **kw())
+    sub_b = LabBase(**kw())
+    for tname, plain, sub in (('point', plain_p, sub_p), ('model', plain_m, sub_m), ('base', plain_b, sub_b)):
+        ev += 1
+        nt += 1
+        if sub.iso_id != plain.iso_id or not (sub == plain):
+            ctx.violate(core.make_violation({'check': 'subclass-identity', 'template': tname, 'what': 'differs from the plain class'},
+                                            f'an instance of a user subclass of the {tname} isotherm class with the same content has identifier {sub.iso_id}, the plain class {plain.iso_id}', {}))
+    df2 = point_df()
+    df2.loc[2, 'loading'] = df2.loc[2, 'loading'] + 1e-3
+    sub_p2 = LabPoint(isotherm_data=df2, pressure_key='pressure', loading_key='loading', **kw())
+    m2 = mk_model(params={'K': 0.75, 'n_m': 2.6}).model
+    sub_m2 = LabModel(model=m2, **kw())
+    for tname, a, b, what in (('point', sub_p, sub_p2, 'a data value'), ('model', sub_m, sub_m2, 'a model parameter')):
+        ev += 1
+        nt += 1
+        if a.iso_id == b.iso_id or a == b:
+            ctx.violate(core.make_violation({'check': 'subclass-identity', 'template': tname, 'what': 'content not counted'},
+                                            f'two instances of a user subclass of the {tname} isotherm class that differ in {what} have the same identifier / compare equal', {}))
     ctx.add('routes_edits_histories', ev, nt)
     ctx.cov['rule'] = ('route alphabet (49 routes over 4 templates) x identifier/==/membership; 4 child processes with other hash seeds; content-edit '
                        'alphabet (every metadata key, unit label, material, adsorbate, temperature, every data cell + 1e-6, every branch mark, '
